@@ -487,3 +487,95 @@ def r6(R):
                 'new; the store under it silently replaces the copied '
                 'record' % (attr, ' and '.join(sorted(meths)),
                             's' if len(meths) == 1 else ''))
+
+
+# ------------------------------------------------------------------ C20.R7
+@rule('C20.R7', 'the set of ids the transaction in progress stores records '
+      'under (which new_oid consults, C20.R6) is emptied only by the owner of '
+      'the commit lock: after the acquire in tpc_begin, or behind the '
+      'transaction-identity check of finish/abort -- never by a committer '
+      'that is still waiting', min_instances=3)
+def r7(R):
+    from ..twopc import commit_lock_ops, identity_guard
+    ds = R.prog.cls(DS)
+    # the sets, as C20.R6 finds them: `self.<attr>.add(<oid parameter>)` in
+    # a store method
+    recorded = set()
+    for meth in ('store', 'storeBlob', 'restore', 'restoreBlob',
+                 'deleteObject'):
+        r = R.prog.find_method(ds, meth)
+        if r is None or r[0].cls is None or r[0].cls.name != 'DemoStorage':
+            continue
+        f = r[0]
+        oid = [p for p in f.params if p != 'self'][0]
+        for c in walk_local(f.node):
+            if isinstance(c, ast.Call) and isinstance(
+                    c.func, ast.Attribute) and c.func.attr == 'add' and \
+                    dotted(c.func.value) and len(dotted(c.func.value)) == 2 \
+                    and dotted(c.func.value)[0] == 'self' and c.args and \
+                    isinstance(c.args[0], ast.Name) and c.args[0].id == oid:
+                recorded.add(dotted(c.func.value)[1])
+    R.require(recorded, 'DemoStorage.store no longer records the ids it '
+              'stores')
+    EMPTIERS = {'clear', 'difference_update', 'intersection_update',
+                'discard', 'remove', 'pop'}
+    n = 0
+    for name, f in sorted(ds.methods.items()):
+        if name == '__init__':
+            continue
+
+        def empties(node, F):
+            out = []
+            for op in F.ops(node):
+                if op.kind == 'store' and op.path is not None and \
+                        len(op.path) == 2 and op.path[0] == 'self' and \
+                        op.path[1] in recorded:
+                    out.append(op)
+                elif op.kind == 'call' and op.path is not None and \
+                        len(op.path) == 3 and op.path[0] == 'self' and \
+                        op.path[1] in recorded and op.path[2] in EMPTIERS:
+                    out.append(op)
+            return out
+
+        if not any(isinstance(x, ast.Attribute) and x.attr in recorded
+                   for x in ast.walk(f.node)):
+            continue
+        g, b, F = R.cfg(f, ds, max_depth=0)
+        if not any(empties(nd, F) for nd in g.nodes):
+            continue
+        n += 1
+        R.instance('DemoStorage.%s empties %s' % (
+            name, ', '.join('self.' + a for a in sorted(recorded))))
+
+        def edge(node, st, lab, tgt, F=F):
+            same = identity_guard(node, F)
+            if same is not None and lab in ('T', 'F'):
+                return st or lab == same
+            if lab not in ('e', 'eb') and any(
+                    k == 'acq' for k, _ in commit_lock_ops(F, node)):
+                return True
+            return st
+
+        def at(node, st, F=F, name=name):
+            if not st:
+                for op in empties(node, F):
+                    return Violation(
+                        'DemoStorage.%s empties self.%s (`%s`) on a path on '
+                        'which the caller is not known to own the commit '
+                        'lock: a committer still WAITING for the lock wipes '
+                        'the ids the transaction in progress is storing '
+                        'copied records under; new_oid() then hands one of '
+                        'them out, and the store under it replaces the '
+                        'copied record' % (
+                            name, op.path[1],
+                            ' '.join(ast.unparse(op.stmt).split())[:60]))
+            return st
+
+        vs, stats = explore(g, False, at=at, edge=edge)
+        R.count(stats)
+        for v in vs:
+            R.violation(v.node, v.message, g, v.path, key='the ids of '
+                        'the transaction in progress emptied without '
+                        'owning the commit lock')
+    R.require(n >= 3, 'expected tpc_begin, tpc_finish and tpc_abort to '
+              'empty the set; found %d method(s)' % n)
